@@ -191,7 +191,11 @@ static void gen_tuple(comps_t *c, unsigned shape)
         char *h = gen_from("abcdefghijklmnopqrstuvwxyz0123456789.-ABCXYZ", 1, small_len());
         h[0] = ALNUM[vh_below(62)];
         c->f[F_HOST] = h;
-        if ((shape >> F_PORT) & 1) c->f[F_PORT] = gen_from("0123456789", 1, 5);
+        if ((shape >> F_PORT) & 1) {
+            /* "host:/p": a port that was given, and is empty -- given all the same, so nothing is filled in from the service database */
+            if (vh_coin(6)) { c->f[F_PORT] = strdup(""); vh_count("port_present_and_empty", 1); }
+            else c->f[F_PORT] = gen_from("0123456789", 1, 5);
+        }
     }
     if (((shape >> F_PATH) & 1) || !has_host) {
         /* bare paths always have a path; '/'-led, may contain @ : . and further '/', never starts with "//" */
@@ -206,7 +210,9 @@ static void gen_tuple(comps_t *c, unsigned shape)
     }
     if ((shape >> F_QUERY) & 1) {
         /* query: = & @ : and, only when a path is present, '/' */
-        c->f[F_QUERY] = gen_from(c->f[F_PATH] ? "abcdefghijklmnopqrstuvwxyz0123456789=&@:.-_/+;" : "abcdefghijklmnopqrstuvwxyz0123456789=&@:.-_+;",
+        /* "host?" and "/p?" are in the shape too: a query that is present and empty */
+        if (vh_coin(8)) { c->f[F_QUERY] = strdup(""); vh_count("query_present_and_empty", 1); }
+        else c->f[F_QUERY] = gen_from(c->f[F_PATH] ? "abcdefghijklmnopqrstuvwxyz0123456789=&@:.-_/+;" : "abcdefghijklmnopqrstuvwxyz0123456789=&@:.-_+;",
                                  1, small_len());
     }
 }
